@@ -2195,7 +2195,12 @@ func (cs Conditions) inlineTagFilter(tags map[string]TagDetails) ConditionsSet {
 		tagConditionsSet := td.Conditions.InlineTagFilters(tags)
 		//TODO: rename subqueries in tagConditionsSet to not collide with the normal query
 		if c.Accept&uncertain == TagConditionAcceptUncertainFailing {
-			tagConditionsSet = tagConditionsSet.invert()
+			if len(tagConditionsSet) == 0 {
+				// the definition matches no stream (an empty mark): every undecided stream fails it
+				tagConditionsSet = ConditionsSet{Conditions{}}
+			} else {
+				tagConditionsSet = tagConditionsSet.invert()
+			}
 		}
 		origLen := len(csNew)
 		for range tagConditionsSet {
